@@ -451,6 +451,11 @@ def rule_every_entry(ctx, tu, I):
 
 def run(ctx):
     tu = ctx.cx
+    # shared clause, first (it needs no engine anchor): the amounts the processing starts from are the state's, converted from
+    # the state's own units (C04.STATE)
+    from ..core import borrow as _borrow
+    from . import c04 as _c04
+    _borrow(ctx, "C14", _c04.rule_state, ctx.py)
     rule_gsd(ctx, tu)
     I = idxmod.Idx(tu)
     rule_every_entry(ctx, tu, I)
@@ -471,10 +476,14 @@ def run(ctx):
     # shared clause: the recorded t = 0 sample the caller sees is the processed state the engine recorded (C09.FETCH-PY)
     from . import c09 as _c09
     borrow(ctx, "C14", _c09.rule_fetch_py, ctx.py)
+    # shared clauses: the amounts the processing starts from are the state's, converted from the state's own units (C04.STATE);
+    # a coarse-grained run keeps the script's mode and seed (C16.SCRIPT)
+    from . import c16 as _c16
+    borrow(ctx, "C14", _c16.rule_cgscript, ctx.py)
     from .. import ffi
     ffi.rule_sig(ctx, "C14.FFI", only={"mesh_state", "mesh_chstt", "seed", "init_state_processing"})
     from .. import lints
-    lints.run(ctx, "C14", ctx.py, ["rdscript"], truth_floor=5)
+    lints.run(ctx, "C14", ctx.py, ["rdscript", "simulate", "librdengine"], truth_floor=5)
     ctx.assume("totals, non-negativity, 'zero stays zero', the Poisson law and termination of the redistribution loop "
                "are value-level and not decided (the loop is named by C10.LOOPS)")
     ctx.assume("the Python side hands state and chemostat map over species-major (C13.INDEX)")
